@@ -22,9 +22,9 @@ def classify(req, obs, rule):
 
 PROP = {
     "id": "C05",
-    "lean_targets": ["WmModel.Props.C05Reg", "WmModel.Props.C05"],
+    "lean_targets": ["WmModel.Props.C04Exit", "WmModel.Props.C05Reg", "WmModel.Props.C05"],
     "audit_module": "Audit.C05",
-    "theorems": ["Wm.GcReg.blocking_order", "Wm.GcReg.blocking_publish_waits", "Wm.GcReg.blocking_send_then_wait", "Wm.GcReg.blocking_deadlock_witness", "Wm.GcReg.blocking_without_pending_writer_returns", "Wm.GcReg.writer_unique", 
+    "theorems": ["Wm.GcSub.acked_exit_means_delivered_and_acked", "Wm.GcSub.unacked_exit_means_closing", "Wm.GcSub.sender_exits_once", "Wm.GcReg.blocking_order", "Wm.GcReg.blocking_publish_waits", "Wm.GcReg.blocking_send_then_wait", "Wm.GcReg.blocking_deadlock_witness", "Wm.GcReg.blocking_without_pending_writer_returns", "Wm.GcReg.writer_unique", 
         "Wm.GcSub.one_unsettled_inv", "Wm.GcSub.unsettled_is_owned", "Wm.GcSub.no_send_while_unsettled",
         "Wm.GcSub.never_panics", "Wm.GcSub.close_flags_consistent", "Wm.GcSub.holder_can_leave_when_closing",
     ],
@@ -36,7 +36,7 @@ PROP = {
     "classify": classify,
     "rule": "seeded scenarios on the real GoChannel (buffer 0/1/3 x persistent x blocking; 1-3 topics, publishers, subscribers; consumers that "
             "ack, nack k times, mutate, delay, cancel mid-delivery leaving the message unsettled, never settle, publish from the receive loop; "
-            "late Subscribe; Close racing the publishers) with seeded yield injection at the gochannel.* hook points. Per subscription the "
+            "late Subscribe; Close racing the publishers; first a blocking-mode receive loop that publishes to 96 other topics of the same Pub/Sub before it acks) with seeded yield injection at the gochannel.* hook points. Per subscription the "
             "recorded stream of hook + consumer events must be a trace of the Lean model M_sub (subset construction) and satisfy the "
             "one-unsettled monitor; the topic-level trace must satisfy the blocking-publish and publisher-order monitors. "
             "Non-trivial = at least two deliveries in the stream/trace.",
